@@ -57,6 +57,8 @@ func splitMap(s string, addKV func(k, v string) error) error {
 	// whether a key has been read for the current entry (the key itself
 	// may be the empty string)
 	haveKey := false
+	// whether a value has been read for the current entry
+	haveVal := false
 	for tok := sc.Scan(); sc.ErrorCount == 0; tok = sc.Scan() {
 		switch tok {
 		case scanner.String, scanner.RawString, scanner.Ident, scanner.Float, scanner.Int:
@@ -69,12 +71,17 @@ func splitMap(s string, addKV func(k, v string) error) error {
 				txt = parsedtxt
 			}
 
-			if inKey {
+			switch {
+			case inKey && !haveKey:
 				curKey = txt
 				haveKey = true
-			} else if inValue && haveKey {
+			case inValue && haveKey && !haveVal:
 				curVal = txt
-			} else {
+				haveVal = true
+			default:
+				// including a second token for the same key or
+				// value (e.g. `k:"a" "b"`), which would otherwise
+				// silently replace the first one
 				return fmt.Errorf("unexpected string literal: %s",
 					sc.TokenText())
 			}
@@ -89,6 +96,7 @@ func splitMap(s string, addKV func(k, v string) error) error {
 			curKey = ""
 			curVal = ""
 			haveKey = false
+			haveVal = false
 			inKey = true
 			inValue = false
 		case ':':
